@@ -48,7 +48,12 @@ def pick_seed(rng) -> int:
         return 0
     if r < 0.16:
         return int(rng.choice([1, 2 ** 31 - 1, 2 ** 32 - 1]))
-    return int(rng.integers(1 << 30))
+    v = int(rng.integers(1 << 30))
+    if r < 0.22:
+        return np.int64(v)          # numpy integers and integral floats are accepted seeds too
+    if r < 0.26:
+        return float(v)
+    return v
 
 
 def two_modes(rng, n: int, adjacent_p: float = 0.4):
@@ -78,6 +83,18 @@ def random_swaps(rng, n: int) -> dict:
 GATES_1Q = ["H", "X", "Y", "Z", "S", "T", "SX"]
 
 
+def herald_in_place(c, rng, photons=(0, 1)):
+    """Declares one more herald directly on circuit ``c`` (same input and output mode, a free numbered mode).
+    Returns True if a herald was added."""
+    nn = c.n_modes - len(c._internal_modes)
+    free = [m for m in range(nn) if c._map_mode(m) not in c.heralds["input"]
+            and c._map_mode(m) not in c.heralds["output"]]
+    if len(free) < 2:
+        return False
+    c.herald(int(rng.choice(photons)), int(rng.choice(free)))
+    return True
+
+
 def equivalent_variant(c, rng):
     """The same circuit in another, equivalent presentation: itself, a copy, a frozen copy, or a copy that went
     through one of the transformation-preserving rewrites. Every consumer must treat all of them alike."""
@@ -104,6 +121,7 @@ class Builder:
                  on_add=None):
         self.on_add = on_add
         self.last = None            # description of the API call being attempted
+        self.children: list = []    # (child circuit, its log) of every circuit that was added to a parent
         self.rng, self.lw = rng, lw
         self.loss_p = loss_p
         self.param_p = param_p
@@ -314,6 +332,8 @@ class Builder:
             self.last = ['add', sub_log, m, group, self.state(c)]
             c.add(child, m, group)
             log.append(["add", sub_log, m, group])
+            if len(self.children) < 6:
+                self.children.append((child, sub_log))
             if rng.random() < 0.12:
                 # the very same child object once more, at another legal position
                 nn2 = self.numbered(c)
